@@ -53,6 +53,15 @@ class RecordingLexerMixin(object):
                 type(self).log.append((t.type, t.lexpos))
             return t
         self.token = token
+        # semicolons supplied through Parser.p_error do not pass token()
+        inner_semi = self.auto_semi
+
+        def auto_semi(tok):
+            t = inner_semi(tok)
+            if t is not None and type(self).log is not None:
+                type(self).log.append((t.type, t.lexpos))
+            return t
+        self.auto_semi = auto_semi
 
 
 _recording_cls = None
@@ -86,12 +95,16 @@ def parse_recording(text):
         pe.Lexer = old
     kinds = {}
     firsts = {}
+    parse_recording.rawlog = list(_recording_cls.log)
     for typ, pos in _recording_cls.log:
         if typ in ('DIV', 'DIVEQUAL', 'REGEX'):
             kinds[pos] = typ          # the last decision for an offset wins
             firsts.setdefault(pos, typ)
     _recording_cls.log = None
     parse_recording.firsts = firsts
+    parse_recording.autosemi = [pos for typ, pos in
+                                (parse_recording.rawlog or [])
+                                if typ == 'AUTOSEMI']
     return out, kinds
 
 
@@ -99,7 +112,33 @@ def judge(case):
     """worker: (text, dictated tree, [(offset, dictated slash kind)])"""
     text, exp, slashes = case[:3]
     out, kinds = parse_recording(text)
-    if len(case) > 3:
+    if len(case) > 3 and isinstance(case[3], dict):
+        # conformance with AsiImpl.tla: the real-token index in front of
+        # which each AUTOSEMI token was handed to the parser (an AUTOSEMI
+        # carries the offset of the token, or of the line terminator, it
+        # was made for; 0 at the end of input)
+        starts = case[3]['starts']
+        log = parse_recording.rawlog or []
+        accepted = []
+        for j, (typ, p) in enumerate(log):
+            if typ != 'AUTOSEMI':
+                continue
+            prev = log[j - 1] if j else None
+            nxt = log[j + 1] if j + 1 < len(log) else None
+            # a semicolon offered by p_error in front of the offending token
+            # is part of the token sequence iff the parser took it, i.e. asks
+            # for the pushed-back token next; otherwise the error recovery
+            # (a `/` read again as a regex) throws both away
+            if prev is not None and prev[1] == p and prev[0] != 'AUTOSEMI' \
+                    and p != 0 and nxt != prev:
+                continue
+            accepted.append(p)
+        seen = sorted({(len(starts) + 1) if p == 0 and len(starts) else
+                       1 + sum(1 for x in starts if x < p)
+                       for p in accepted})
+        judge.drift = seen != sorted(case[3]['model'])
+        judge.seen = seen
+    elif len(case) > 3:
         # conformance with the implementation model (SlashImpl.tla): first
         # and final reading of every slash as the parser was handed them
         firsts = parse_recording.firsts
@@ -122,6 +161,7 @@ def judge(case):
 
 def judge_with_model(case):
     """judge + (drift?, what was seen) against the SlashImpl readings"""
+    judge.drift, judge.seen = False, None
     r = judge(case)
     return r, judge.drift, judge.seen
 
